@@ -103,6 +103,16 @@ def apply_op(world, chrom, op):
             t.chop(randomness.next_int(-1, t.size()))
     elif kind == "remove_unused":
         t.remove_unused_variables()
+    # positional forms: the position belongs to the operation alphabet, not to the RNG answers
+    elif kind == "mutate_value_at":
+        if op[1] < t.size():
+            f.mutate_value(t, op[1])
+    elif kind == "delete_at":
+        if op[1] < t.size():
+            f.delete_statement_gracefully(t, op[1])
+    elif kind == "mutate_call_at":
+        if op[1] < t.size():
+            f.mutate_call(t, op[1])
     else:
         raise ValueError(op)
     t._code_cache = None  # noqa: SLF001  (defensive: canon must reflect the live statements)
